@@ -30,6 +30,7 @@ META = {
 
 THEOREMS_WRAP = [
     "C10_tables",
+    "C10_comment_probe",
     "C10_width",
     "C10_width_string",
     "C10_title_message_width",
@@ -48,6 +49,7 @@ THEOREMS_CARD = [
     "C10_words_file",
     "C10_start",
     "C10_noblank",
+    "C10_data_stays_data",
     "C10_roundtrip_card",
     "C10_roundtrip",
     "C10_roundtrip_refuted",
@@ -431,28 +433,43 @@ def judge_file(res, version):
             site = "message" if res["has_message"] and i < body_start - 1 else ("title" if i == body_start - 1 else "write_to_file")
             return {"mechanism": "wrap", "site": site, "class": "too-long", "kind": "data"}
     body = written[body_start:]
-    # replace each recorded wrap result, in order, by its unwrapped text
+    # replace each recorded wrap result, in order, by its unwrapped text (write_to_file drops trailing blanks)
     unwrapped, pos = [], 0
-    calls = [c for c in res["calls"] if c["lines"]]
+    calls = [dict(c, lines=[l.rstrip() for l in c["lines"]]) for c in res["calls"] if c["lines"]]
+    body_r = [l.rstrip() for l in body]
     ci = 0
+    matched = 0
     while pos < len(body):
-        if ci < len(calls) and body[pos : pos + len(calls[ci]["lines"])] == calls[ci]["lines"]:
+        if ci < len(calls) and body_r[pos : pos + len(calls[ci]["lines"])] == calls[ci]["lines"]:
             unwrapped += src_lines(calls[ci]["s"])
             pos += len(calls[ci]["lines"])
             ci += 1
+            matched += 1
         else:
             # nested calls (a cell's modifiers) are recorded before the cell's own call: skip what does not match here
             if ci < len(calls) and not any(
-                body[q : q + len(calls[ci]["lines"])] == calls[ci]["lines"] for q in range(pos, min(len(body), pos + 400))
+                body_r[q : q + len(calls[ci]["lines"])] == calls[ci]["lines"] for q in range(pos, min(len(body), pos + 400))
             ):
                 ci += 1
                 continue
             unwrapped.append(body[pos])
             pos += 1
+    res["matched_calls"] = matched
     E = spec.logical_inputs(spec.HUGE, [l.expandtabs(8) for l in unwrapped])
     G = spec.logical_inputs(limit, [l.expandtabs(8) for l in body])
     if E != G:
-        cls = "bad-indent" if len(G) != len(E) else "content-changed"
+        ec = "".join(i["comment"] for i in E)
+        gc = "".join(i["comment"] for i in G)
+        ew = [w for i in E for w in i["words"]]
+        gw = [w for i in G for w in i["words"]]
+        if len(gc) > len(ec) and len(gw) < len(ew):
+            cls = "data-to-comment"
+        elif len(gc) < len(ec) and len(gw) > len(ew):
+            cls = "comment-to-data"
+        elif len(G) != len(E):
+            cls = "bad-indent"
+        else:
+            cls = "content-changed"
         return {"mechanism": "wrap", "site": "write_to_file", "class": cls, "kind": "file"}
     return None
 
@@ -462,6 +479,10 @@ NUMS = ["1", "-2", "3", "10", "-11", "12", "105", "-1001", "2.5", "1.0", "0.5", 
 KEYS = ["imp:n=1", "imp:n,p=0", "vol=5", "u=2", "fill=3", "tmp=2.5e-8", "lat=1", "trcl=5", "nlib=80c", "imp:p", "=", "VOL", "(", ")", ":", "#3", "(1:2)", "#(1 2)"]
 HYPH = ["be-met.40t", "lwtr.20t", "grph-x.10t", "a-b", "--", "-", "x--y", "poly-h.01t", "u-o2.30t", "ab-cd-ef", "1001.80c", "92235.80c"]
 CWORDS = ["this", "is", "a", "comment", "imp:n=1", "c", "C", "$", "&x", "1", "0", "-1", "vol=2", "water", "fuel-pin", "(clad)", "=", "be-met.40t", "x"]
+# data words that BEGIN with c/C: a line starting with one of them in columns 1-5 is data, not a comment line
+# (cosine bins cN, cell flagging cfN, cosine multipliers cmN, cut:p, ctme, cosy ...)
+LOOKALIKES = ["c14", "C14", "*c14", "cf4", "CF4", "cm4", "cut:n", "CUT:p", "ctme", "cosy", "c1", "c0", "cc", "cx", "c-1"]
+COSINES = " ".join(f"{-1 + 0.1 * i:.1f}" for i in range(21))
 SEPS = [" "] * 12 + ["  ", "   ", "    ", "      ", "\t", " \t"]
 
 
@@ -491,6 +512,9 @@ def gen_line(rng, W):
         return line.rstrip("\t") if rng.random() < 0.7 else line
     lead = rng.choice(["", "", "", " ", "    ", "     ", "      ", "         "])
     line = lead
+    if rng.random() < 0.15:
+        # first word begins with c in columns 1-5 (or on a continuation line): data all the same
+        line = rng.choice(["", "", " ", "  ", "   ", "    ", "     "]) + rng.choice(LOOKALIKES) + rng.choice([" ", " ", "  ", "="])
     dollar_at = rng.randint(max(1, target - 70), target + 10) if r < 0.65 else None
     while len(line) < target:
         if dollar_at is not None and len(line) >= dollar_at:
@@ -516,7 +540,12 @@ def gen_line(rng, W):
 def gen_straddle(rng, W):
     """a base line and its variants in which every token boundary in reach lands at W-6 .. W+6"""
     toks = gen_tokens(rng, rng.randint(14, 40), hyph=0.25)
-    kind = rng.choice(["data", "dollar", "dollar", "ccomment"])
+    kind = rng.choice(["data", "dollar", "dollar", "ccomment", "lookalike", "lookalike"])
+    if kind == "lookalike":
+        toks[0] = rng.choice(["", " ", "    "]) + rng.choice(LOOKALIKES)
+        if rng.random() < 0.4:
+            k = rng.randint(2, len(toks) - 1)
+            toks = toks[:k] + ["$"] + [rng.choice(CWORDS) for _ in range(rng.randint(1, 12))]
     if kind == "ccomment":
         toks = ["c"] + [rng.choice(CWORDS) for _ in range(len(toks))]
     elif kind == "dollar":
@@ -610,6 +639,26 @@ def gen_data_case(rng, i):
     v = VERSIONS[i % 3]
     W = limit_of(v)
     r = rng.random()
+    if rng.random() < 0.2:
+        # data inputs whose mnemonic begins with c, on one physical line around / beyond the limit
+        kind = rng.choice(["c", "c", "cf", "cm", "cut"])
+        lead = rng.choice(["", "", " ", "   "])
+        if kind == "cut":
+            text = lead + f"cut:{rng.choice('np')} j 0.0 " + " ".join(rng.choice(["-0.5", "-0.25", "0", "j", "1e-3"]) for _ in range(3))
+            while len(text) < W + rng.randint(-20, 6):
+                text += " "
+            text += "$ " + gen_comment(rng, rng.randint(3, 14))
+        else:
+            name = {"c": rng.choice(["c14", "C14", "*c14", "c4"]), "cf": "cf4", "cm": "cm14"}[kind]
+            text = lead + name
+            step = rng.choice([0.1, 0.05, 0.04])
+            x = -1.0
+            while x <= 1.0001 and len(text) < W + rng.randint(-10, 40):
+                text += " " + (f"{x:.2f}" if kind != "cf" else str(int(100 * (x + 1.5))))
+                x += step
+            if rng.random() < 0.3:
+                text += " $ " + gen_comment(rng, rng.randint(1, 8))
+        return {"kind": "generic", "text": text[:128], "edits": [], "version": list(v)}
     if r < 0.45:
         iso = ["1001.80c", "8016.80c", "92235.80c", "92238.80c", "6000.80c", "40090.80c", "26056.80c", "5010.80c"]
         text = f"m{rng.choice([1, 20, 300])}"
@@ -668,6 +717,10 @@ def gen_file_case(rng, i):
     surfs = [f"{s} pz {s}.5" + ("" if rng.random() < 0.7 else " $ " + gen_comment(rng, rng.randint(1, 12))) for s in used]
     data = ["m1 1001.80c 0.66667 8016.80c 0.33333", "mode n", "nps 100"]
     if rng.random() < 0.5:
+        used0 = [int(w) for w in cells[0].split("$")[0].split()[2:] if w.isdigit()] or [1]
+        data += [f"f14:n {used0[0]}", rng.choice(["", " ", "  "]) + rng.choice(["c14 ", "C14 ", "*c14 "]) + COSINES[: rng.choice([60, 90, 104])].rstrip(" -.")
+                 + ("" if rng.random() < 0.6 else " $ " + gen_comment(rng, 4)), "cut:n j 0.0"]
+    if rng.random() < 0.5:
         data.insert(1, "mt1 lwtr.20t be-met.40t")
     text = msg + title[:79] + "\n" + "\n".join(l[:128] for l in cells) + "\n\n" + "\n".join(surfs) + "\n\n" + "\n".join(data) + "\n\n"
     edits = []
@@ -695,8 +748,19 @@ CORPUS_STRINGS = [
     ("h" * 130, V128),
     ("h" * 127, V128),
     ("1 0 " + "h" * 77, V80),
+    # a data line whose first word begins with c (seeded change C10c: _is_comment_line judged by the parser's token regex)
+    ("c14 " + COSINES, V80),
+    ("  *C14 " + COSINES + " $ cosine bins", V80),
+    ("cut:n j 0.0 -0.5 -0.25" + " " * 60 + "$ a comment that does not fit", V80),
+    ("1 0 -1 &\n cf4 " + " ".join(str(i) for i in range(1, 40)), V80),
 ]
+COSINE_FILE = (
+    "cosine bins written for an 80 column MCNP\n1 0 -1 imp:n=1\n2 0  1 imp:n=0\n\n1 so 10.0\n\nmode n\n"
+    "c the cosine bins of the surface current tally\nf14:n 1\nc14 " + COSINES + "\ncut:n j 0.0\nnps 1000\n"
+)
 CORPUS_CELLS = [
+    {"kind": "generic", "text": "c14 " + COSINES, "edits": [], "version": list(V80)},
+    {"kind": "generic", "text": "c14 " + COSINES, "edits": [], "version": list(V5)},
     # the continuation mark "&" and paddings that end in a line break (cleanup_last_line, merged from main)
     {"kind": "cell", "text": "1 0 -1 &\n     imp:n=1", "edits": [["volume", 5.0]], "version": list(V128)},
     {"kind": "cell", "text": "1 0 -1 imp:n=1 &\nvol=1", "edits": [["volume", 2.0]], "version": list(V80)},
@@ -785,7 +849,9 @@ def compare(chk, drv, unit, case, ri, rm, rerun_impl, rerun_model):
 
 def run(chk):
     chk.rule = (
-        "U-wrap cases: (a) source lines built from MCNP tokens (numbers, keywords, hyphenated thermal laws, parentheses), "
+        "U-wrap cases: (a) source lines built from MCNP tokens (numbers, keywords, hyphenated thermal laws, parentheses; first words also "
+        "from the look-alike family c14/C14/cf4/cm4/cut:n/ctme/... that begin with c in columns 1-5 but are data, also "
+        "behind a line ending in &), "
         "with $ comments, C comment lines, tabs, long blank runs and over-long words, of length limit-12..limit+60, "
         "(b) for base lines every token boundary moved to columns limit-6..limit+6, both regimes (80/128), "
         "(c) all strings over {a,blank,$,c} up to a small length at tiny widths, (d) real cells/surfaces/materials/MT/TR "
@@ -809,7 +875,8 @@ def run(chk):
         "Spec/Text.lean as a reading of MCNP's physical line rules (comment line, $, 5-blank continuation, &, column limit)",
         "hand-written model lean/MontePyVerif/Model/Wrap.lean, tied to the code by the U-wrap correspondence of this run",
         "translator: Gen/Constants.lean (LINE_LENGTH, BLANK_SPACE_CONTINUE, TABSIZE), Gen/PyText.lean (str.isspace, "
-        "splitlines boundaries, textwrap._whitespace, TextWrapper defaults, the keyword arguments of the TextWrapper call)",
+        "splitlines boundaries, textwrap._whitespace, TextWrapper defaults, the keyword arguments of the TextWrapper call), "
+        "Gen/CommentProbe.lean (the answers of the working tree's _is_comment_line on the probe list)",
         "harness tools/props/c10.py and tools/vlib/c10spec.py (Python transcription of Spec/Text.lean, compared with it on every judged case)",
     ]
     leanio.prove(chk, "MontePyVerif.Props.C10", THEOREMS_WRAP, "MontePyVerif.C10")
@@ -895,7 +962,14 @@ def run(chk):
                 ls.append(rng.choice(["", "   ", "\t"]))
             else:
                 l = gen_line(rng, W)
-                if k > 0 and not l.startswith("c") and not l.startswith("C") and rng.random() < 0.8:
+                prev_ok = k > 0 and ls[-1].strip() and "$" not in ls[-1] and not spec.is_comment_line(ls[-1].expandtabs(8)) \
+                    and "&" not in ls[-1]
+                if prev_ok and rng.random() < 0.12:
+                    # the line before ends in "&": this one continues it although it starts in columns 1-5 — with a
+                    # word that begins with c
+                    ls[-1] = ls[-1].rstrip(" \t") + " &"
+                    l = rng.choice(["", " ", "  ", "    "]) + rng.choice(LOOKALIKES) + " " + " ".join(gen_tokens(rng, rng.randint(3, 40)))
+                elif k > 0 and not l.startswith("c") and not l.startswith("C") and rng.random() < 0.8:
                     l = "     " + l.lstrip()
                 ls.append(l)
         sep = "\n" if rng.random() < 0.95 else rng.choice(["\r\n", "\r", "\x0c"])
@@ -1000,6 +1074,8 @@ def run(chk):
     for path in sorted(glob.glob(os.path.join(REPO, "tests", "inputs", "*.imcnp"))):
         for v in VERSIONS[:2]:
             fl_cases.append({"path": path, "version": list(v), "edits": []})
+    for v in (V80, V5, V128):
+        fl_cases.append({"text": COSINE_FILE, "edits": [], "version": list(v)})
     for i in range(chk.pick(150, 3000)):
         fl_cases.append(gen_file_case(rng, i))
     impl = pmap(impl_file, fl_cases, workers=WORKERS, chunksize=8)
@@ -1014,6 +1090,8 @@ def run(chk):
         chk.note_case({"file": case.get("path") or case["text"], "version": case["version"], "edits": case["edits"]}, wrapped)
         chk.count("file:" + ("wrapped" if wrapped else "fits"))
         sig = judge_file(ri, case["version"])
+        chk.count("file:wrapcalls-recorded", len([c for c in ri["calls"] if c["lines"]]))
+        chk.count("file:wrapcalls-matched-in-file", ri.get("matched_calls", 0))
         if sig is not None:
             r2 = impl_file(case)
             if "skip" in r2 or judge_file(r2, case["version"]) != sig:
@@ -1029,6 +1107,10 @@ def run(chk):
     chk.units["U-file"] = {"files": len(fl_cases), "written": nfiles}
     if nfiles == 0:
         raise MachineryError("no file could be read and written: the file generator or MontePy's reader is broken")
+    if chk.dist.get("file:wrapcalls-recorded", 0) > 0 and chk.dist.get("file:wrapcalls-matched-in-file", 0) * 4 < chk.dist["file:wrapcalls-recorded"]:
+        # the file oracle compares the file with its unwrapped inputs; if it cannot find the wrap results in the file any
+        # more (write_to_file changed what it does to the lines) it would silently compare the file with itself
+        raise MachineryError("file oracle: fewer than a quarter of the recorded wrap results were found in the written files")
 
     # ---------------------------------------------------------------- U-spec: the Python oracle is Spec/Text.lean
     sp = []
